@@ -78,6 +78,7 @@ type HarnessRun struct {
 	samples    []map[string]interface{}
 	inexact    int64
 	fpConvOOR  int64
+	xcount     int64
 	steps      int64
 	maxDepth   int
 	t0         time.Time
@@ -533,14 +534,25 @@ func (p *Path) crossCheck(label string, t *Term) {
 		sb.WriteByte('\n')
 	}
 	sb.WriteString("(assert (not " + ref + "))\n(check-sat)\n")
+	script := sb.String()
+	hasStr := strings.Contains(script, "str.")
+	n := atomic.AddInt64(&p.run.xcount, 1)
+	if n > 300 && n%20 != 0 {
+		return // sample: the first 300 assert queries of a harness, then every 20th
+	}
 	for _, bin := range p.eng.xsolvers {
-		res, out := runOneShot(bin, sb.String(), 60)
+		if hasStr && strings.Contains(bin, "cvc5") {
+			continue // cvc5 1.0 stalls on str.from_int (measured); strings go to z3 5.1 only
+		}
+		res, out := runOneShot(bin, script, 20)
 		atomic.AddInt64(&gstats.XCheck, 1)
 		if res == rSat {
 			atomic.AddInt64(&gstats.XDisagree, 1)
 			p.run.noteUndecided(fmt.Sprintf("solver disagreement on assert %s: primary unsat, %s sat", label, bin))
 		} else if res == rUnknown && strings.Contains(out, "(error") {
 			p.run.noteUndecided(fmt.Sprintf("cross-check error on assert %s with %s: %.200s", label, bin, out))
+		} else if res == rUnknown {
+			atomic.AddInt64(&gstats.XUnknown, 1)
 		}
 	}
 }
